@@ -24,6 +24,7 @@ class Violation(Exception):
         self.detail = detail
 
 
+_PRODUCER = False  # variant run: every task carries the data-producer flag that from_array / IO layers put on root tasks
 _KEYNAMES = None  # optional renaming of the generated keys (falsy keys 0, '', () ...), set by the sweep for variant runs
 
 
@@ -74,7 +75,7 @@ def make_graph(spec, fail=()):
             dsk[name] = Alias(name, dn[0])
             denote[name] = denote[dn[0]]
         else:
-            dsk[name] = Task(name, mkfunc(name, dn), *[TaskRef(d) for d in dn])
+            dsk[name] = Task(name, mkfunc(name, dn), *[TaskRef(d) for d in dn], **({"_data_producer": True} if _PRODUCER else {}))
             denote[name] = (name,) + tuple(denote[d] for d in dn)
     return dsk, denote, runs, recv
 
@@ -141,7 +142,7 @@ def _show(state):
     return {k: (dict(v) if isinstance(v, dict) else v) for k, v in state.items() if k != "cache"} | {"cache-keys": sorted(state.get("cache", {}))}
 
 
-def run_one(spec, request, num_workers, chunksize, schedule, fail=(), check_invariant=True, callbacks_extra=None):
+def run_one(spec, request, num_workers, chunksize, schedule, fail=(), check_invariant=True, callbacks_extra=None, packed=False):
     """Run the real get_async once under `schedule` (iterator of choice indices).
     Returns dict(outcome=..., choices=[(n_pending, chosen)...]).  Raises Violation on a property failure."""
     import dask.local as L
@@ -228,7 +229,13 @@ def run_one(spec, request, num_workers, chunksize, schedule, fail=(), check_inva
     outcome = None
     try:
         try:
-            res = L.get_async(submit, num_workers, dsk, request, callbacks=cbs, chunksize=chunksize, cache=user_cache)
+            kw_pack = {}
+            if packed:
+                # the way dask.threaded.get calls get_async: a failing task is reported through the result queue
+                # (failed=True) and re-raised by the scheduler loop; the default of get_async re-raises inside the worker
+                import dask.threaded as _TH
+                kw_pack = {"pack_exception": _TH.pack_exception}
+            res = L.get_async(submit, num_workers, dsk, request, callbacks=cbs, chunksize=chunksize, cache=user_cache, **kw_pack)
             outcome = ("value", res)
         except FailingTask as e:
             outcome = ("raised", str(e))
@@ -411,6 +418,32 @@ def sweep(tier, seed=0, with_failures=True, time_budget=None):
                 break
     finally:
         _KEYNAMES = None
+    # tasks that carry the data-producer flag (as from_array / IO root tasks do) are tasks like any other for the scheduler
+    global _PRODUCER
+    _PRODUCER = True
+    try:
+        for n in range(1, 4):
+            for spec in graph_specs(n, ("T", "D", "A")):
+                for req in requests_for(n)[:3]:
+                    nw, cs = configs[1]
+                    cases += 1
+                    args = {"graph": spec, "request": req, "num_workers": nw, "chunksize": cs, "failing": (), "tasks": "flagged _data_producer=True"}
+                    try:
+                        runs += all_schedules(spec, req, nw, cs, (), limit=10)
+                    except Violation as v:
+                        fails.append(rtc.Failure("get_async", args, "ensures", v.clause, v.detail))
+                    except Hang as h:
+                        fails.append(rtc.Failure("get_async", args, "timeout", "C04-never-hangs", str(h)))
+                    except BaseException as e:  # noqa
+                        fails.append(rtc.Failure("get_async", args, "exception", type(e).__name__, repr(e)))
+                    if fails:
+                        break
+                if fails:
+                    break
+            if fails:
+                break
+    finally:
+        _PRODUCER = False
     for n in range(1, nmax + 1):
         for spec in with_null_literals(n):
             null_variant = any(k in ("N", "Z") for k, _ in spec)
@@ -428,6 +461,8 @@ def sweep(tier, seed=0, with_failures=True, time_budget=None):
                             if not fl and (nw, cs) == configs[0]:
                                 raising_start_case(spec, req, nw, cs)
                             runs += all_schedules(spec, req, nw, cs, fl, limit=60 if tier == "quick" else 400)
+                            if fl:
+                                runs += all_schedules(spec, req, nw, cs, fl, limit=60 if tier == "quick" else 400, packed=True)
                         except Violation as v:
                             fails.append(rtc.Failure("get_async", {"graph": spec, "request": req, "num_workers": nw, "chunksize": cs, "failing": fl}, "ensures", v.clause, v.detail))
                         except Hang as h:
@@ -527,10 +562,28 @@ def sweep(tier, seed=0, with_failures=True, time_budget=None):
 
 def replay(native):
     args = eval(native["args_repr"])
+    global _PRODUCER
+    if "tasks" in args:
+        _PRODUCER = True
+        try:
+            all_schedules(tuple(args["graph"]), args["request"], args["num_workers"], args["chunksize"], (), limit=10)
+        except (Violation, Hang) as v:
+            return {"reproduced": True, "detail": str(v)}
+        except BaseException as e:  # noqa
+            return {"reproduced": True, "detail": repr(e)}
+        finally:
+            _PRODUCER = False
+        return None
+    if "raises" in args:
+        r = raising_kinds_sweep("quick")
+        hit = [f for f in r["failures"] if f.args == args]
+        return {"reproduced": True, "detail": hit[0].detail} if hit else ({"reproduced": "another case of the family fails", "detail": r["failures"][0].detail} if r["failures"] else None)
     try:
         if "schedule" in args:
             run_one(tuple(args["graph"]), args["request"], args["num_workers"], args["chunksize"], args["schedule"], tuple(args["failing"]), check_invariant=False)
         all_schedules(tuple(args["graph"]), args["request"], args["num_workers"], args["chunksize"], tuple(args["failing"]), limit=400)
+        if args.get("failing"):
+            all_schedules(tuple(args["graph"]), args["request"], args["num_workers"], args["chunksize"], tuple(args["failing"]), limit=400, packed=True)
     except (Violation, Hang) as v:
         return {"reproduced": True, "detail": str(v)}
     except BaseException as e:  # noqa
@@ -600,3 +653,89 @@ def remote_exception_sweep(tier, seed=0):
     return {"function": "dask/multiprocessing.py:remote_exception (real code)", "bounded": True, "bound": {"exception classes": len(classes), "rounds": 2, "incl": "same-named classes from a factory with different bases; classes with multi-argument constructors, three failures each"},
             "cases": cases, "distinct_nontrivial": cases, "failures_found": len(fails), "wall_s": round(time.time() - t0, 2),
             "samples": [{"native_case": {"class": "make_error.<locals>.TaskError", "bases": ["LookupError"]}}], "failures": fails[:3]}
+
+
+def raising_kinds_sweep(tier, seed=0):
+    """C04 for the in-process schedulers: whatever exception type a task raises -- including the ones Python treats
+    specially inside generators and iterators (StopIteration, StopAsyncIteration, GeneratorExit) -- get() raises an
+    exception of the same type with the same arguments, runs no dependent, and calls finish(failed=True) once."""
+    import time
+
+    import dask.local as L
+    import dask.threaded as TH
+    from dask._task_spec import Task, TaskRef
+
+    t0 = time.time()
+    cases, fails = 0, []
+
+    class Custom(Exception):
+        pass
+
+    kinds = [lambda: StopIteration("boom"), lambda: StopAsyncIteration("boom"), lambda: GeneratorExit("boom"), lambda: KeyError("boom"), lambda: ValueError("boom", 2),
+             lambda: Custom("boom"), lambda: LookupError(), lambda: AssertionError("boom"), lambda: OSError(2, "boom"), lambda: next(iter([]))]
+
+    def scenario(mk, where):
+        ran = []
+
+        def bad():
+            e = mk()
+            raise e if isinstance(e, BaseException) else RuntimeError("unreachable")
+
+        def ok():
+            ran.append("ok")
+            return 1
+
+        def dep(*a):
+            ran.append("dep")
+            return a
+
+        if where == "leaf":
+            dsk = {"a": Task("a", bad), "b": Task("b", ok), "c": Task("c", dep, TaskRef("a"), TaskRef("b"))}
+        else:
+            dsk = {"b": Task("b", ok), "a": Task("a", lambda x: bad(), TaskRef("b")), "c": Task("c", dep, TaskRef("a"))}
+        return dsk, ran
+
+    try:
+        ref_types = []
+        for mk in kinds:
+            try:
+                mk_e = mk()
+                ref_types.append((type(mk_e), mk_e.args))
+            except BaseException as e:  # next(iter([])) raises while being built
+                ref_types.append((type(e), e.args))
+        runners = [("get_sync", lambda d: L.get_sync(d, "c")), ("threaded.get(num_workers=2)", lambda d: TH.get(d, "c", num_workers=2)), ("threaded.get(num_workers=2, chunksize=2)", lambda d: TH.get(d, "c", num_workers=2, chunksize=2)),
+                   ("get_sync(rerun_exceptions_locally=True)", lambda d: L.get_sync(d, "c", rerun_exceptions_locally=True))]
+        for (mk, (ety, eargs)) in zip(kinds, ref_types):
+            for where in ("leaf", "inner"):
+                for rname, run in runners:
+                    cases += 1
+                    dsk, ran = scenario(mk, where)
+                    fin = []
+                    from dask.callbacks import Callback
+                    msg = None
+                    try:
+                        with Callback(finish=lambda d, s, failed: fin.append(failed)):
+                            run(dsk)
+                        msg = f"{rname}: a task raising {ety.__name__} did not make get() raise"
+                    except BaseException as e:  # noqa
+                        if type(e) is not ety or e.args != eargs:
+                            msg = f"{rname}: the task raised {ety.__name__}{eargs!r} but get() raised {type(e).__name__}{e.args!r}"
+                    if msg is None and "dep" in ran:
+                        msg = f"{rname}: a dependent of the failed task ran"
+                    if msg is None and fin != [True]:
+                        msg = f"{rname}: finish callbacks saw {fin}, expected [True]"
+                    if msg:
+                        fails.append(rtc.Failure("get_async", {"raises": ety.__name__, "failing_task": where, "scheduler": rname}, "ensures", "C04-same-type-same-message", msg))
+                        if len(fails) >= 4:
+                            break
+                if len(fails) >= 4:
+                    break
+            if len(fails) >= 4:
+                break
+    finally:
+        from dask.callbacks import Callback
+        Callback.active = set()
+    return {"function": "dask/local.py:get_async via get_sync / threaded.get (real code)", "bounded": True,
+            "bound": {"exception kinds": "StopIteration, StopAsyncIteration, GeneratorExit, KeyError, ValueError(2 args), custom, LookupError(), AssertionError, OSError(2 args), next(iter([]))", "failing task": "leaf / inner", "schedulers": 4},
+            "cases": cases, "distinct_nontrivial": cases, "failures_found": len(fails), "wall_s": round(time.time() - t0, 2),
+            "samples": [{"native_case": {"raises": "StopIteration", "failing_task": "leaf", "scheduler": "get_sync"}}], "failures": fails}
